@@ -253,7 +253,7 @@ func init() {
 		Rule: "PRNG operation scripts over the public API (paragraph/table/image/header/footer/note/list/TOC/properties/page/math/style calls, hostile corpus strings, reopen and template-render steps), " +
 			"each saved through ToBytes and Save up to 3 times, plus hostile Markdown through ConvertFile, plus harness-written foreign packages (own content-type defaults, arbitrary ids/prefixes/parts) that are opened and extended; every produced package is read by the independent OPC monitor (zip-readable, xml-wellformed, ns-unbound, content-types, main-part). " +
 			"Thorough tier, case 0: the repository's own test suite and every program under examples/ are run in a scratch copy of the tree and every .docx they leave behind goes through the same monitor. A case is non-trivial if it executed >=3 distinct call kinds and at least one package was parsed; distinct = distinct call sequence.",
-		Cases: func(t string) int { return tierN(t, 1600, 40000) },
+		Cases: func(t string) int { return tierN(t, 3200, 40000) },
 		Run: func(c *core.Ctx) *core.Result {
 			if c.Tier == "thorough" && c.Case == 0 {
 				return repoProgramsCase(c, (*opc.Package).CheckC01)
@@ -284,7 +284,7 @@ func init() {
 		Level: "exploration",
 		Rule: "operation scripts biased to relationship-creating calls (body/cell/template images, every header/footer kind repeatedly, notes, lists, footnote config, properties) interleaved with save/open cycles, plus foreign packages with arbitrary pre-existing relationship ids (also without / with a strict-namespace styles relationship) that are opened and then extended, plus groups of documents rendered from one template document that are extended alternately and saved at the end; " +
 			"every saved package goes through the relationship monitor (unique ids per .rels, internal targets exist, owner part, r:id/r:embed references resolve to the matching kind). Non-trivial: >=3 call kinds and >=1 relationship checked; distinct = distinct call sequence.",
-		Cases: func(t string) int { return tierN(t, 2400, 60000) },
+		Cases: func(t string) int { return tierN(t, 4000, 60000) },
 		Run: func(c *core.Ctx) *core.Result {
 			if c.Tier == "thorough" && c.Case == 0 {
 				return repoProgramsCase(c, (*opc.Package).CheckC02)
@@ -310,7 +310,7 @@ func init() {
 		Level: "exploration",
 		Rule: "operation scripts biased to style creation/removal, styled content (headings, SetStyle, TOC entries, table style templates), lists and notes with intermediate saves and open/save cycles, plus Markdown conversion (Quote/CodeBlock styles) and foreign packages carrying their own styles/numbering that are extended; " +
 			"every saved package: each pStyle/rStyle/tblStyle is defined in the styles part, each numId has w:num + w:abstractNum, each note reference id is in the notes part; styles defined through the style API must appear in the next save. Non-trivial: >=3 call kinds and >=1 id resolved.",
-		Cases: func(t string) int { return tierN(t, 2400, 60000) },
+		Cases: func(t string) int { return tierN(t, 4000, 60000) },
 		Run: func(c *core.Ctx) *core.Result {
 			if c.Tier == "thorough" && c.Case == 0 {
 				return repoProgramsCase(c, (*opc.Package).CheckC13)
